@@ -27,15 +27,15 @@ try:
     def demo():
         cmd = ["go", "test", "-vet=off", "-count=1", "-timeout", "180s", "-run", "Seed", "."]
         if race: cmd.insert(2, "-race")
-        r = subprocess.run(cmd, cwd=pkgdir, env=e2, capture_output=True, text=True)
+        r = subprocess.run(cmd, cwd=pkgdir, env=e2, capture_output=True, text=True, errors="replace")
         return r.returncode, (r.stdout + r.stderr)[-1500:]
     rc0, out0 = demo()
     res["demo_without_patch"] = "pass" if rc0 == 0 else "FAIL"
-    r = subprocess.run(["patch", "-p1", "-s", "-d", repo, "-i", f"{dst}/patch.diff"], capture_output=True, text=True)
+    r = subprocess.run(["patch", "-p1", "-s", "-d", repo, "-i", f"{dst}/patch.diff"], capture_output=True, text=True, errors="replace")
     res["patch_applies"] = r.returncode == 0
     if r.returncode != 0:
         res["patch_error"] = (r.stdout + r.stderr)[-500:]
-    r = subprocess.run(["go", "build", "./..."], cwd=repo, env=e2, capture_output=True, text=True)
+    r = subprocess.run(["go", "build", "./..."], cwd=repo, env=e2, capture_output=True, text=True, errors="replace")
     res["compiles"] = r.returncode == 0
     rc1, out1 = demo()
     res["demo_with_patch"] = "pass" if rc1 == 0 else "FAIL"
@@ -44,7 +44,7 @@ try:
     os.remove(os.path.join(repo, rel))
     base = json.load(open("/root/.vp/BASELINE.json"))
     want = set(base["stable_pass"])
-    p = subprocess.run(["go", "test", "-json", "-vet=off", "-count=1", "-timeout", "25m", "./..."], cwd=repo, env=e2, capture_output=True, text=True)
+    p = subprocess.run(["go", "test", "-json", "-vet=off", "-count=1", "-timeout", "25m", "./..."], cwd=repo, env=e2, capture_output=True, text=True, errors="replace")
     passed = set()
     for line in p.stdout.splitlines():
         try: ev = json.loads(line)
@@ -55,7 +55,7 @@ try:
     # the check
     for f in ("verif_contracts.go", "smtp/verif_contracts.go"):
         pass
-    r = subprocess.run([f"{V}/bin/goverif", "check", "--prop", prop, "--repo", repo, "--out", tmp], capture_output=True, text=True)
+    r = subprocess.run([f"{V}/bin/goverif", "check", "--prop", prop, "--repo", repo, "--out", tmp], capture_output=True, text=True, errors="replace")
     res["check_exit"] = r.returncode
     res["failed_obligations"] = sorted(set(re.findall(r"failed obligation: (\S+)", r.stdout)))
     if r.returncode not in (0, 1):
